@@ -40,6 +40,8 @@ class Contract:
         self.effects_free = kw.pop("effects_free", False)
         self.self_type = kw.pop("self_type", None)
         self.lemmas = list(kw.pop("lemmas", []))
+        self.functional = kw.pop("functional", False)   # deterministic function of (arguments, the heap fields in `reads`)
+        self.reads = kw.pop("reads", None)              # heap field names the result depends on (None: whole heap)
         if kw:
             raise TypeError(f"unknown contract keys {list(kw)} for {qualname}")
 
@@ -51,11 +53,12 @@ def _lab(e):
 
 
 class Spec:
-    def __init__(self, name, params, returns, body=None, axioms=(), recursive=False, doc=""):
+    def __init__(self, name, params, returns, body=None, axioms=(), recursive=False, doc="", reads=None):
         self.name, self.params, self.returns, self.body = name, params, returns, body
         self.axioms = list(axioms)
         self.recursive = recursive
         self.doc = doc
+        self.reads = reads or []
 
 
 class Registry:
@@ -85,8 +88,11 @@ class Registry:
         kw.setdefault("trusted", True)
         return self.contract(qualname, **kw)
 
-    def spec(self, name, params, returns, body=None, axioms=(), recursive=False, doc=""):
-        self.specs[name] = Spec(name, params, returns, body, axioms, recursive, doc)
+    def spec(self, name, params, returns, body=None, axioms=(), recursive=False, doc="", reads=None):
+        self.specs[name] = Spec(name, params, returns, body, axioms, recursive, doc, reads)
+
+    def lemma(self, name, **kw):
+        self.lemmas.append(dict(name=name, **kw))
 
     def record(self, qualname, kind="ref", fields=None, bases=(), defaults=None, validators=()):
         self.records.append(dict(qualname=qualname, kind=kind, fields=fields or {}, bases=bases,
@@ -106,6 +112,7 @@ spec = REG.spec
 record = REG.record
 axiom = REG.axiom
 assume_note = REG.assume
+lemma = REG.lemma
 
 
 def parse_expr(s):
